@@ -180,6 +180,20 @@ def validate(prop, cfg, lines, v, drv, classify=None, max_fail=6, timeout=7200, 
     validate concurrently (a record only refers to later records of its own group)."""
     import threading
     lines = list(lines)
+    # records of generators with a known finding of their own (spirals: F13) go into small chunks of their own: every occurrence
+    # is classified and removed and its chunk re-validated, which must not mean re-validating thousands of unrelated records
+    iso = [x for x in lines if '"tag":"spiral"' in x]
+    iso_chunks = []
+    if iso and len(iso) < len(lines):
+        lines = [x for x in lines if '"tag":"spiral"' not in x]
+        cur = []
+        for x in iso:
+            if len(cur) >= 80 and json.loads(x)["g"] != json.loads(cur[-1])["g"]:
+                iso_chunks.append(cur)
+                cur = []
+            cur.append(x)
+        if cur:
+            iso_chunks.append(cur)
     nchunks = max(1, min(8, len(lines) // 3000))
     chunks = []
     if nchunks == 1:
@@ -194,10 +208,11 @@ def validate(prop, cfg, lines, v, drv, classify=None, max_fail=6, timeout=7200, 
             if end > start:
                 chunks.append(lines[start:end])
             start = end
+    chunks += iso_chunks
     lock = threading.Lock()
     workers = 16 if len(chunks) == 1 else max(2, 16 // len(chunks))
     results = []
-    with concurrent.futures.ThreadPoolExecutor(max_workers=len(chunks)) as ex:
+    with concurrent.futures.ThreadPoolExecutor(max_workers=min(len(chunks), 8)) as ex:
         futs = [ex.submit(_validate_chunk, prop, cfg, ch, v, drv, classify, max(1, max_fail // len(chunks) + 1), timeout, module, max_known,
                           require_repro, workers, lock) for ch in chunks]
         for f in futs:
